@@ -11,7 +11,7 @@
      otherwise (a host or local value the module does not keep)
          => it is still mutable: the operations that always succeed on a
             mutable value succeed, append really appends. *)
-From Coq Require Import List Arith Bool ZArith Lia.
+From Coq Require Import List Arith Bool ZArith.
 From SV Require Import C04.Heap.
 Import ListNotations.
 
